@@ -26,16 +26,50 @@ import (
 
 // LPhase is a burst of inserts followed by a burst of deliveries.
 type LPhase struct {
-	Base   int `json:"base"`   // first item of the burst
-	N      int `json:"n"`      // how many items
-	Stride int `json:"stride"` // item k of the burst is Base+k*Stride (mod universe)
-	Dup    int `json:"dup"`    // every Dup-th item is inserted twice more (0 = never)
-	Next   int `json:"next"`   // deliveries after the burst
+	Base   int `json:"base"`          // first item of the burst
+	N      int `json:"n"`             // how many items
+	Stride int `json:"stride"`        // item k of the burst is Base+k*Stride (mod universe)
+	Dup    int `json:"dup"`           // every Dup-th item is inserted twice more (0 = never)
+	Next   int `json:"next"`          // deliveries after the burst
+	Hot    int `json:"hot,omitempty"` // the first item of the burst is inserted Hot more times (counter boundaries: 255, 65535, ...)
 }
 
 type LargeScenario struct {
 	Universe int      `json:"universe"`
 	Phases   []LPhase `json:"phases"`
+	// Kinds: item x is inserted as an int (false) or as a value of kind x%6 (true): int, string,
+	// struct, pointer to a per-item variable, a typed nil pointer (one item only), the nil interface
+	// (one item only). Insert takes any interface{} that can be a map key.
+	Kinds bool `json:"kinds,omitempty"`
+}
+
+type largeStruct struct {
+	A int
+	B string
+}
+
+var largePtrs [1000]int
+
+// largeItem maps the item number to the value that is inserted. The mapping is injective.
+func largeItem(sc *LargeScenario, x int) interface{} {
+	if !sc.Kinds {
+		return x
+	}
+	switch {
+	case x == 4:
+		return (*int)(nil)
+	case x == 5:
+		return nil
+	}
+	switch x % 4 {
+	case 1:
+		return fmt.Sprintf("item-%d", x)
+	case 2:
+		return largeStruct{x, "s"}
+	case 3:
+		return &largePtrs[x%len(largePtrs)]
+	}
+	return x
 }
 
 func genLarge(t *rapid.T) *LargeScenario {
@@ -48,9 +82,13 @@ func genLarge(t *rapid.T) *LargeScenario {
 			Dup:    rapid.SampledFrom([]int{0, 0, 1, 2, 5}).Draw(t, "dup"),
 		}
 		p.Next = rapid.SampledFrom([]int{0, 1, 2, 5, 10, 15, 16, 17, 30, 33, 64, 200}).Draw(t, "next")
+		if rapid.IntRange(0, 11).Draw(t, "hot") == 0 {
+			p.Hot = rapid.SampledFrom([]int{254, 255, 256, 257, 65534, 65535, 65536, 65537, 70000}).Draw(t, "hot-n")
+		}
 		return p
 	}
 	sc.Phases = rapid.SliceOfN(rapid.Custom(ph), 1, 12).Draw(t, "phases")
+	sc.Kinds = rapid.IntRange(0, 2).Draw(t, "kinds") == 0
 	return sc
 }
 
@@ -58,6 +96,7 @@ type largeStats struct {
 	maxPending        int
 	fullWhileHalfUsed bool // an insert while >16 were pending and >=32 had been appended since the last drain
 	drains            int
+	maxDup            int
 }
 
 func runLarge(sc *LargeScenario) (st largeStats, err error) {
@@ -75,7 +114,7 @@ func runLarge(sc *LargeScenario) (st largeStats, err error) {
 	step := 0
 	insert := func(x int) error {
 		step++
-		fresh, ierr := q.Insert(x)
+		fresh, ierr := q.Insert(largeItem(sc, x))
 		if ierr != nil {
 			return newVerr("insert-refused-while-open", "step %d Insert(%d) on an open queue: %v", step, x, ierr)
 		}
@@ -104,12 +143,9 @@ func runLarge(sc *LargeScenario) (st largeStats, err error) {
 		if nerr != nil {
 			return newVerr("next-error", "step %d Next with %d pending returned error %v", step, len(fifo), nerr)
 		}
-		got, ok := it.(int)
-		if !ok {
-			return newVerr("delivery-not-pending", "step %d Next returned %v (%T) with %d pending, head of the model queue is %d", step, it, it, len(fifo), fifo[0])
-		}
-		if got != fifo[0] {
-			return newVerr("order", "step %d Next returned %d, first pending insertion is %d (pending %d)", step, got, fifo[0], len(fifo))
+		got := fifo[0]
+		if want := largeItem(sc, got); it != want {
+			return newVerr("order", "step %d Next returned %#v (%T), first pending insertion is item %d = %#v (%T) (pending %d)", step, it, it, got, want, want, len(fifo))
 		}
 		if dup != cnt[got] {
 			return newVerr("dup-count", "step %d Next returned (%d, dup %d), %d duplicates were coalesced", step, got, dup, cnt[got])
@@ -140,6 +176,16 @@ func runLarge(sc *LargeScenario) (st largeStats, err error) {
 					if e := insert(x); e != nil {
 						return st, e
 					}
+				}
+			}
+			if k == 0 && p.Hot > 0 {
+				for r := 0; r < p.Hot; r++ {
+					if e := insert(x); e != nil {
+						return st, e
+					}
+				}
+				if int(cnt[x]) > st.maxDup {
+					st.maxDup = int(cnt[x])
 				}
 			}
 		}
@@ -186,6 +232,14 @@ func TestC11Large(t *testing.T) {
 		}
 		if st.drains >= 2 {
 			labels = append(labels, "refilled-after-drain")
+		}
+		for _, b := range []int{256, 65536} {
+			if st.maxDup >= b {
+				labels = append(labels, fmt.Sprintf("duplicates-of-one-pending-item>=%d", b))
+			}
+		}
+		if sc.Kinds {
+			labels = append(labels, "items-of-several-kinds(incl. nil interface, typed nil)")
 		}
 		rec.Case(sc, st.fullWhileHalfUsed && st.drains >= 1, labels...)
 		if err != nil {
